@@ -151,6 +151,20 @@ func init() {
 			); err != nil {
 				return err
 			}
+			// the marking APIs given empty mark sets (nil, empty literal, the empty
+			// set UnmarkDeep returns for an unmarked value, NewValueMarks()) must
+			// return a value that is not marked at all (IsMarked: "at least one mark")
+			_, noMarks := u.UnmarkDeep()
+			_, noMarksShallow := u.Unmark()
+			if err := wfAll(c, "WithMarks / WithSameMarks / MarkWithPaths with empty mark sets",
+				u.WithMarks(cty.ValueMarks{}), u.WithMarks(make(cty.ValueMarks, 4)), u.WithMarks(nil), u.WithMarks(noMarks), u.WithMarks(noMarksShallow),
+				u.WithMarks(cty.NewValueMarks()), u.WithMarks(cty.ValueMarks{}, nil), u.WithMarks(noMarks, cty.ValueMarks{}, noMarksShallow),
+				v.WithMarks(cty.ValueMarks{}), v.WithMarks(noMarks), u.WithSameMarks(u), u.WithSameMarks(), u.WithSameMarks(u, u),
+				u.MarkWithPaths(nil), u.MarkWithPaths([]cty.PathValueMarks{{Path: cty.Path{}, Marks: cty.ValueMarks{}}}),
+				u.MarkWithPaths([]cty.PathValueMarks{{Path: cty.Path{}, Marks: noMarks}}),
+			); err != nil {
+				return err
+			}
 			// the ValueSet routes into a set, fed with the members of a list as they
 			// are (only the list's own marks removed: members may carry marks
 			// nested inside them): refused (panic) or a well-formed set
